@@ -465,6 +465,32 @@ pub fn gen_writer(rng: &mut Rng, thorough: bool) -> Vec<u64> {
     let env = |rng: &mut Rng| -> (u64, u64) {
         (rng.pick(&[0u64, 0, 1, 7, 100, 5000, 16384, 20000, 100000]), (rng.chance(2)) as u64)
     };
+    // now and then more frames are queued than the stream's command channel takes before the connection task
+    // runs (11): a burst of small messages through the Sink, flushed in one go
+    if rng.chance(15) {
+        let n = rng.range(5, 14);
+        for j in 0..n {
+            let len = match tag {
+                0 => arg,
+                1 => rng.below(4),
+                _ => rng.below(4).min(arg),
+            };
+            if len > 2000 {
+                break;
+            }
+            ops.extend([1, 200 + j, len]);
+            nops += 1;
+        }
+        for _ in 0..rng.range(1, 3) {
+            ops.push(2);
+            nops += 1;
+            if rng.chance(50) {
+                let (g, r) = env(rng);
+                ops.extend([6, g, r]);
+                nops += 1;
+            }
+        }
+    }
     // the extracted model works on byte lists: the volume of a case stays below ~90 kB
     let mut budget = 90_000u64;
     for i in 0..nmsgs {
